@@ -241,3 +241,138 @@ Proof.
             Hwf HR MI G _).
   vm_compute. reflexivity.
 Qed.
+
+(* ====================================================================== *)
+(* The VM as a whole (WP-c06d): no dangling reference, decodable code.
+
+   Invariant [NoPanicBase.wfm s]: the heap satisfies heap_inv; every symbol bound in the global
+   environment has a slot; EVERY cell value stored anywhere in s — heap cells, all stack slots, %acc,
+   global slots, vector and environment payloads, the bytecode of every code object, the saved stack
+   and saved ip of every continuation — is [vwf]: a VStr/VVec/VLambda/VLexEnv/VCont names an existing
+   Rc payload, the lambda pointer of a VClosure and of a VIp is a heap cell holding a VLambda whose
+   code exists, a VIp index is >= 1, a VGSlot is a slot of the global environment; saved stacks fit the
+   stack Vec; every code object starts with an opcode.  It holds for the machine of Vm::new, is kept
+   by load_builtins, by the compiler on ANY datum, by every instruction, every builtin of the
+   generated table and by Vm::eval (with finv /\ J of C01/C02), and it excludes the panic sites
+   X = 11 13 41 42 43 45 46 47 48 49 50 51 of Model/Vm.v / Heap.v ([xsiteb]).
+   NOT excluded (they need the stack discipline of compiled code, see docs/WP-c06d.md): 10 (only
+   through %ep), 14, 40, 44; 12 IS reachable (finding eval-object-in-constant, refuted below);
+   the sites of the library builtins (20-23, 30-33, 99, 150-153, 200-207) are outside X.
+   [num_panics_ok] (NoPanicPkg.v) = the twelve value-level number functions of the table never answer
+   a Panic whose site number lies in X (their sites are 20-23 and 200-207): C06_num_panics_ok. *)
+From MW Require Import Model.Gc Proofs.SymtabProofs Proofs.FlatProofs Proofs.FlatAll Proofs.KeepCalc
+  Proofs.NoPanicBase Proofs.NoPanicPkg Proofs.NoPanicNum Proofs.NoPanicAll Proofs.NoPanicFinal.
+
+Theorem C06_excluded_sites_unfold : forall k, xsiteb k = true <->
+  (k = 11 \/ k = 13 \/ k = 41 \/ k = 42 \/ k = 43 \/ k = 45 \/ k = 46 \/ k = 47 \/ k = 48 \/ k = 49 \/ k = 50 \/ k = 51).
+Proof. exact xsiteb_unfold. Qed.
+Print Assumptions C06_excluded_sites_unfold.
+
+Theorem C06_vm_invariant_empty : forall c, 0 < c -> wfm (vm_empty c) /\ finv (vm_empty c) /\ J (vm_empty c).
+Proof. exact winv_empty. Qed.
+Print Assumptions C06_vm_invariant_empty.
+
+(* one instruction, any opcode, any builtin table that keeps the invariant: the invariant again (also on
+   the error exit, where additionally ip >= 1 — what stack_trace needs), or a panic outside X *)
+Theorem C06_step_no_vm_panic : forall (ob : N -> M vcell),
+  (forall b s, wfm s -> npost okp s (ob b s) vwf) ->
+  forall s, wfm s -> lamcell s (fst (ip s)) -> J s -> finv s ->
+  match run_one ob s with
+  | ROk _ s' => wfm s' /\ lamcell s' (fst (ip s'))
+  | RErr _ _ s' => wfm s' /\ 1 <= snd (ip s') /\ lamcell s' (fst (ip s'))
+  | RPanic k => xsiteb k = false
+  | RNoFuel => True
+  end.
+Proof. exact step_no_vm_panic. Qed.
+Print Assumptions C06_step_no_vm_panic.
+
+(* the error path: building the stack trace never fails (site 51) and never panics in X (41 49 50) *)
+Theorem C06_stack_trace_no_vm_panic : forall s, wfm s -> 1 <= snd (ip s) -> lamcell s (fst (ip s)) ->
+  match stack_trace s with Ok _ => True | Err _ => False | Panic k => xsiteb k = false | NoFuel => True end.
+Proof. exact stack_trace_no_vm_panic. Qed.
+Print Assumptions C06_stack_trace_no_vm_panic.
+
+Theorem C06_num_panics_ok : num_panics_ok.
+Proof. exact num_panics_ok_holds. Qed.
+Print Assumptions C06_num_panics_ok.
+
+(* every builtin of the generated table *)
+Theorem C06_builtin_no_vm_panic : forall b s, wfm s ->
+  match Builtins.other_builtin b s with
+  | ROk v s' => wfm s' /\ vwf s' v
+  | RErr _ _ s' => wfm s'
+  | RPanic k => xsiteb k = false
+  | RNoFuel => True
+  end.
+Proof. exact builtin_no_vm_panic_u. Qed.
+Print Assumptions C06_builtin_no_vm_panic.
+
+(* the compiler (macro expansion included) on ANY datum *)
+Theorem C06_prepare_eval_no_vm_panic : forall e s, wfm s ->
+  match prepare_eval e s with
+  | ROk _ s' => wfm s' /\ lamcell s' (fst (ip s'))
+  | RErr _ _ s' => wfm s'
+  | RPanic k => xsiteb k = false
+  | RNoFuel => True
+  end.
+Proof. exact prepare_eval_no_vm_panic. Qed.
+Print Assumptions C06_prepare_eval_no_vm_panic.
+
+(* Vm::eval of ANY datum, any fuel, from any state satisfying the invariant *)
+Theorem C06_eval_vm_outcome : forall fuel e s, wfm s -> finv s -> J s ->
+  match eval Builtins.other_builtin fuel e s with
+  | ROk _ s' => wfm s' /\ finv s' /\ J s'
+  | RErr _ _ s' => wfm s' /\ finv s' /\ J s'
+  | RPanic k => xsiteb k = false
+  | RNoFuel => True
+  end.
+Proof. exact eval_vm_outcome_u. Qed.
+Print Assumptions C06_eval_vm_outcome.
+
+Theorem C06_boot_invariant : forall prelude s0 s, boot_with prelude = Some s0 -> evals s0 s ->
+  wfm s /\ finv s /\ J s.
+Proof. exact boot_invariant_u. Qed.
+Print Assumptions C06_boot_invariant.
+
+(* the headline: from the machine booted with ANY prelude text (in particular [booted]) and from every
+   session state, evaluation of ANY datum with ANY fuel never panics at a site of X *)
+Theorem C06_eval_no_vm_panic : forall prelude s0 s fuel e k,
+  boot_with prelude = Some s0 -> evals s0 s -> eval Builtins.other_builtin fuel e s = RPanic k ->
+  k <> 11 /\ k <> 13 /\ k <> 41 /\ k <> 42 /\ k <> 43 /\ k <> 45 /\ k <> 46 /\ k <> 47 /\ k <> 48 /\ k <> 49 /\ k <> 50 /\ k <> 51.
+Proof. exact eval_no_vm_panic_u. Qed.
+Print Assumptions C06_eval_no_vm_panic.
+
+Theorem C06_eval_no_vm_panic_booted : forall s0 s fuel e k,
+  booted = Some s0 -> evals s0 s -> eval Builtins.other_builtin fuel e s = RPanic k ->
+  k <> 11 /\ k <> 13 /\ k <> 41 /\ k <> 42 /\ k <> 43 /\ k <> 45 /\ k <> 46 /\ k <> 47 /\ k <> 48 /\ k <> 49 /\ k <> 50 /\ k <> 51.
+Proof. exact eval_no_vm_panic_booted. Qed.
+Print Assumptions C06_eval_no_vm_panic_booted.
+
+(* OPEN: no panic at all.  Needs the stack discipline of compiled code (sites 10 14 40 44), the repair of
+   finding eval-object-in-constant (site 12) and the numeric / allocation classes of C08, C14, C15. *)
+Definition C06_eval_no_panic_stmt : Prop :=
+  forall s0 s fuel e k, booted = Some s0 -> evals s0 s -> eval Builtins.other_builtin fuel e s <> RPanic k.
+
+(* FINDING eval-object-in-constant: `eval` hands a datum that contains a procedure OBJECT to the compiler;
+   quote / vector literal / quasiquote call Heap::put_cell on it: panic!("unexpected lambda") (site 12).
+   [datum_has_object] (NoPanicFinal.v) is the decidable class of data put_cell rejects; the witness
+   [obj_witness_text] is (eval (cons 'quote (cons car '()))): its datum contains no object, the object is
+   made at run time.
+   [run_text t fuel] = parse t, evaluate its datum on boot_with [] (all builtins loaded). *)
+Theorem C06_refuted_eval_object_in_constant :
+  run_text obj_witness_text 200 = Some (RPanic 12) /\
+  match parse_text obj_witness_text with Ok (d, None) => datum_has_object d = false | _ => False end.
+Proof. exact refuted_eval_object_in_constant. Qed.
+Print Assumptions C06_refuted_eval_object_in_constant.
+
+(* non-vacuity: the invariant holds on the machine of Vm::new and on boot_with [] (all builtins loaded);
+   a program with a variadic closure, apply, call/cc and a builtin passed as a value,
+   (call/cc (lambda (k) (k ((lambda (f . r) (apply f r)) car '(1 2))))), runs to a value there *)
+Example C06_vm_invariant_example :
+  (wfm (vm_empty 8192) /\ finv (vm_empty 8192) /\ J (vm_empty 8192)) /\
+  (forall s, boot_with [] = Some s -> wfm s /\ finv s /\ J s) /\
+  match run_text ok_example_text 400 with Some (ROk (Done _) _) => True | _ => False end.
+Proof.
+  split; [apply C06_vm_invariant_empty; reflexivity|]. split; [|exact ok_example_run].
+  intros s B. exact (C06_boot_invariant [] s s B (evals_refl s)).
+Qed.
